@@ -214,7 +214,10 @@ def run(facts, res):
                 # a record-builder closure called by name: its parameters stand for the arguments of the call
                 arr.append((n_, [_subst(e_, mp_) for e_ in els_] if mp_ else els_, ln_, bi_))
         w_ar = sorted({n for n, _, _, _ in arr})
-        lc = tables.len_compared_consts(rp)
+        lc = {}
+        for rm_ in [rp] + facts.closures_of(rp.path):       # the record loop may be a `try_for_each` closure
+            for k_, v_ in tables.len_compared_consts(rm_).items():
+                lc.setdefault(k_, []).extend(v_)
         r_ar = sorted({c_ for (op, c_) in lc if op == "Eq"})
         res.instance("G4", "stage record arities written %s / replayed %s" % (w_ar, r_ar), st.loc())
         if w_ar != r_ar or not w_ar:
@@ -305,6 +308,24 @@ def run(facts, res):
                               "replay_stage can move on to the next record without inserting the current one: records are exported in hash-map order, so a "
                               "condition such as `the object exists already` fails for an update record that precedes its creation record and the staged "
                               "edit is lost on replay", rp.loc(rp.blocks[l.edge[0]].term.line))
+        # closure form of the record loop (`records.try_for_each(|record| ..)`): inside the closure, from the edge that recognises a record
+        # by its length no Ok return is reachable without a tree insertion
+        from ..common import assigns_of_return as _aor
+        for cm_ in facts.closures_of(rp.path):
+            ccfg = cfg_of(cm_)
+            cadds = {s_.outer_block for s_ in _is(facts, cm_, lambda t: t.callee.target() == "revisiontree::RevisionTree::add", closures=False) if s_.outer_body is cm_}
+            oks_ = [ob_ for ob_, _ in _aor(cm_, "Ok")]
+            for e_, l in _ael(cm_, facts):
+                if not (l.kind == "cmp" and l.term[1] == "Eq" and l.truth is True and any(x[0] == "const" and x[1] == "int" and x[2] in (2, 3) for x in (l.term[2], l.term[3])) and
+                        any((x[0] == "call" and callee_name(x) == "len") or (x[0] == "unop" and x[1] == "PtrMetadata") for x in walk(l.term))):
+                    continue
+                n4c += 1
+                skip = any(ccfg.reaches(e_, ob_, avoid=cadds) for ob_ in oks_)
+                res.instance("G4", "replay_stage (closure form): a record of length %s is never dropped: %s" % (
+                    [x[2] for x in (l.term[2], l.term[3]) if x[0] == "const"], not skip), cm_.loc(cm_.blocks[l.edge[0]].term.line))
+                if skip:
+                    res.violation("G4", "replay_stage|record-dropped",
+                                  "replay_stage can move on to the next record without inserting the current one", cm_.loc(cm_.blocks[l.edge[0]].term.line))
         res.floor("G4", "record-length branches in replay_stage", n4c, 2)
         # G4d: an update record (three elements) is replayed as the child of the revision it names: every tree insertion under the
         # arity-3 test passes `Some(previous)` as the parent and a revision built on that previous revision - never a parentless
